@@ -312,7 +312,7 @@ theorem ptr_field_lookup (ps : List Param) (hnd : (ps.map (·.name)).Nodup)
 def specParamOps (m : MethodSpec) (p : Param) : List QueryOp :=
   match p.kind with
   | .scalar => if isPathParam m p.name then [] else [⟨.param p.name, aliasOf m p.name, p.ptr⟩]
-  | .struct fs => fs.map (fun f => ⟨fieldExpr p.name f, fieldKey f, f.ptr⟩)
+  | .struct fs | .structElsewhere fs => fs.map (fun f => ⟨fieldExpr p.name f, fieldKey f, f.ptr⟩)
   | _ => []
 
 theorem flatMap_congr_mem {β γ : Type} (l : List β) (f g : β → List γ) (h : ∀ a ∈ l, f a = g a) :
@@ -349,6 +349,7 @@ theorem queryOps_eq (m : MethodSpec) (c : Cooked)
     (hfk : ∀ p ∈ m.params, ∀ f ∈ fieldsOf p, (fieldKey f).isEmpty = false)
     (hak : (keysOf m.alias).Nodup)
     (hav : ∀ kv ∈ m.alias, kv.2.isEmpty = false)
+    (hne : ∀ p ∈ m.params, isElsewhere p = false)
     (hcook : cookParams m.verb (realParams m.alias (placeholders m.path))
       { aliasMap := m.alias.map (fun kv => (Expr.param kv.1, kv.2)) } m.params = .ok c) :
     queryOpsOf c = m.params.flatMap (specParamOps m) := by
@@ -386,5 +387,8 @@ theorem queryOps_eq (m : MethodSpec) (c : Cooked)
   | qualOther => simp [paramExprs, specParamOps, hk]
   | dict => simp [paramExprs, specParamOps, hk]
   | unsupported => simp [paramExprs, specParamOps, hk]
+  | structElsewhere fs0 =>
+    have := hne p hpm
+    simp [isElsewhere, hk] at this
 
 end ShootVerif.Rest
